@@ -270,3 +270,47 @@ Print Assumptions c09_include_is_splice_with_attributes. Print Assumptions c09_i
 Print Assumptions c09_include_shortcut_refuted. Print Assumptions c09_example_attr_include.
 Print Assumptions c09_include_hygiene_ok. Print Assumptions c09_include_hygiene_refuted.
 Print Assumptions c09_example_dedup_vectors. Print Assumptions c09_example_timeout_fires. Print Assumptions c09_example_ascent_run_tc.
+
+(* ---- SIZE and ORDER of the declaration list (Pack/PackOrder.v; tie: family `big` of gen/c09_big.py, programs of 21-64 declarations) ----
+   c09_redecl_last_wins above holds for declaration lists of any length.  What a pass that REORDERS the declarations must respect:
+   the relation a rule resolves a name to, the generated field and the emitted initialiser depend on the list only through
+   `named n ds`, the declarations of name n in their order *)
+From AV Require Import Pack.PackOrder.
+From Coq Require Import Permutation Sorted.
+Theorem c09_reorder_keeping_names : forall (ds ds' : list decl),
+  sig_consistent ds ->
+  (forall n, named n ds' = named n ds) ->
+  forall n, prog_get_relation n ds' = prog_get_relation n ds
+            /\ fields_named n ds' = fields_named n ds
+            /\ initialisers_emitted n ds' = initialisers_emitted n ds.
+Proof. exact reorder_keeping_names. Qed.
+(* in particular a STABLE sort of the declarations by name (sort_by_name: insertion sort) is invisible, for every length and order *)
+Theorem c09_stable_sort_by_name_transparent : forall (ds : list decl),
+  sig_consistent ds ->
+  Permutation ds (sort_by_name ds) /\ Sorted name_le (sort_by_name ds)
+  /\ forall n, prog_get_relation n (sort_by_name ds) = prog_get_relation n ds
+               /\ fields_named n (sort_by_name ds) = fields_named n ds
+               /\ initialisers_emitted n (sort_by_name ds) = initialisers_emitted n ds.
+Proof. exact stable_sort_by_name_transparent. Qed.
+(* NOT so for a sort by name that may permute declarations of equal name (slice::sort_unstable_by above 20 elements): a name-sorted
+   permutation of a list of 30 declarations that only permutes inside the groups of equal names, under which the overridden decoy
+   initialisers 101 / 102 are emitted and the initialiser 55 of a last declaration is lost (the class of the seeded change
+   C09_relations_sorted_unstably_redeclaration_order) *)
+Theorem c09_unstable_sort_by_name_refuted :
+  exists ds ds', (length ds > 20)%nat /\ sig_consistent ds /\ Permutation ds ds' /\ Sorted name_le ds'
+                 /\ (forall n, Permutation (named n ds) (named n ds'))
+                 /\ initialisers_emitted 7 ds = [77]%nat /\ initialisers_emitted 7 ds' = [101]%nat
+                 /\ initialisers_emitted 3 ds = [] /\ initialisers_emitted 3 ds' = [102]%nat
+                 /\ initialisers_emitted 19 ds = [55]%nat /\ initialisers_emitted 19 ds' = [].
+Proof. exact unstable_sort_by_name_refuted. Qed.
+(* computed: 30 declarations in no particular order, relation 7 declared three times, 3 and 19 twice *)
+Example c09_example_big_last_wins :
+  length big_decls = 30%nat /\ length (hir_relations big_decls) = 26%nat
+  /\ initialisers_emitted 7 big_decls = [77]%nat /\ initialisers_emitted 3 big_decls = [] /\ initialisers_emitted 19 big_decls = [55]%nat
+  /\ prog_get_relation 7 big_decls = Some (dc 7 (Some 77%nat)) /\ prog_get_relation 3 big_decls = Some (dc 3 None)
+  /\ map d_name (sort_by_name big_decls) = [1;2;3;3;4;5;6;7;7;7;8;9;10;11;12;13;14;16;17;18;19;19;21;22;24;25;26;27;29;30]%nat
+  /\ map (fun n => initialisers_emitted n (sort_by_name big_decls)) [3; 7; 19; 22]%nat = [[]; [77]; [55]; [40]]%nat
+  /\ map (fun n => initialisers_emitted n (rev big_decls)) [3; 7; 19]%nat = [[102]; [100]; []]%nat.
+Proof. exact big_last_wins. Qed.
+Print Assumptions c09_reorder_keeping_names. Print Assumptions c09_stable_sort_by_name_transparent. Print Assumptions c09_unstable_sort_by_name_refuted.
+Print Assumptions c09_example_big_last_wins.
